@@ -331,3 +331,44 @@ def itemsAll {V : Type} (m : StrMap V) : List (Out LErr (Bytes × V)) :=
     | some k => .ok (k, e.v))
 
 end Verif.SMap
+
+/-! ## constructors and String() -/
+namespace Verif.SMap
+open Verif
+
+/-- `err.Error()` of the two loader errors (what `panic(err)` in the constructors carries) -/
+def LErr.msg : LErr → String
+  | .kvLen => "kv len not match"
+  | .keyTooLarge => "key too large"
+
+/-- `NewFromSlice(kk, vv)`: `New()`, `LoadFromSlice`, `panic(err)` on an error return — so, unlike
+    `LoadFromSlice`, mismatched lengths or a too-large key PANIC with the error as value and the
+    caller gets no object -/
+def newFromSlice {V : Type} (h : Bytes → Nat) (sorter : List (Item V) → List (Item V))
+    (kk : List Bytes) (vv : List V) : Out LErr (StrMap V) :=
+  match loadFromSlice h sorter StrMap.init kk vv with
+  | (.ok _, m) => .ok m
+  | (.err e, _) => .panic e.msg
+  | (.panic s, _) => .panic s
+  | (.oob, _) => .oob
+
+/-- `NewFromMap(m)`: `New()`, `LoadFromMap`, `panic(err)` -/
+def newFromMap {V : Type} (h : Bytes → Nat) (sorter : List (Item V) → List (Item V))
+    (pairsInRangeOrder : List (Bytes × V)) : Out LErr (StrMap V) :=
+  newFromSlice h sorter (pairsInRangeOrder.map (·.1)) (pairsInRangeOrder.map (·.2))
+
+/-- `NewStr2StrFromSlice(kk, vv)` (and `NewStr2StrFromMap` on the pairs in range order) -/
+def newStr2StrFromSlice (h : Bytes → Nat) (sorter : List (Item Int) → List (Item Int))
+    (kk vv : List Bytes) : Out LErr Str2Str :=
+  match s2sLoad h sorter Str2Str.init kk vv with
+  | (.ok _, m) => .ok m
+  | (.err e, _) => .panic e.msg
+  | (.panic s, _) => .panic s
+  | (.oob, _) => .oob
+
+/-- `String()`: ranges over the items and slices `data[e.off:e.off+sz]` for each (the text itself is
+    not modelled; the only non-happy path is the slice panic) -/
+def stringCall {V : Type} (m : StrMap V) : Out LErr Unit :=
+  if m.items.all (fun e => (keyAt m.data e).isSome) then .ok () else .panic "slice"
+
+end Verif.SMap
